@@ -43,7 +43,7 @@ func init() {
 			"when segmented headers are not allowed the transport delivers the first fixed-length flight in one read (the code's documented precondition)",
 			"identity-header depth is 0 or 1 (deeper chains need a SIP022 relay that the repository does not contain)",
 		},
-		ExpectProbes: []string{"c01.excess-payload", "c01.payload>=900", "c01.multi-chunk-write", "c01.leftover-read", "c01.path.readfrom", "c01.path.writeto", "c01.path.read-then-writeto", "c01.path.tunnel"},
+		ExpectProbes: []string{"c01.excess-payload", "c01.payload>=900", "c01.multi-chunk-write", "c01.leftover-read", "c01.path.readfrom", "c01.path.writeto", "c01.path.read-then-writeto", "c01.history.double-close", "c01.target.literal-domain", "c01.first-write-delayed", "c01.path.tunnel"},
 	})
 }
 
@@ -133,6 +133,10 @@ func Run(s *simrt.Sim) {
 	}
 	reqPrefix, respPrefix := prefix(), prefix()
 	target := util.TargetAddr(s)
+	if s.GenChance(10) {
+		target = util.LiteralDomainAddr(s)
+		s.Probe("c01.target.literal-domain")
+	}
 	room := 65535 - addrLen(target) - 2
 	pMenu := []int{0, 0, 1, 899, 900, 901, room - 1, room, room + 1, 65535, 65536, 131071, -1}
 	pLen := util.SizeMenu(s, pMenu, 200000)
@@ -284,6 +288,46 @@ func Run(s *simrt.Sim) {
 
 	ctx := context.Background()
 	var wg sync.WaitGroup
+
+	// --- history: an earlier tunnel of the same process, both ends closed twice (legal for a
+	// net.Conn: defer Close plus an explicit Close). Whatever it leaves behind must not leak into
+	// the tunnels that follow.
+	if s.GenChance(32) {
+		s.Probe("c01.history.double-close")
+		var pwg sync.WaitGroup
+		pwg.Add(1)
+		s.Go("history.accept", func() {
+			defer pwg.Done()
+			raw, err := ln.AcceptTCP()
+			if err != nil {
+				return
+			}
+			if !allowSeg {
+				raw.MinFirstRead = srvFirst
+			}
+			req, err := newServer().HandleStream(raw, util.Logger())
+			if err != nil {
+				raw.Close()
+				return
+			}
+			c, err := req.Proceed()
+			if err != nil {
+				raw.Close()
+				return
+			}
+			c.Write([]byte("earlier tunnel"))
+			c.Close()
+			c.Close()
+		})
+		c, err := newClient(srvAddr, cliHost).DialStream(ctx, target, []byte("hello"))
+		if err == nil {
+			c.SetReadDeadline(time.Now().Add(time.Second))
+			io.ReadFull(c, make([]byte, 14))
+			c.Close()
+			c.Close()
+		}
+		pwg.Wait()
+	}
 
 	// --- server end -------------------------------------------------------------------------
 	serve := func(srv *ss2022.StreamServer, l *simnet.TCPListener, then func(req netio.ConnRequest, c netio.Conn)) {
